@@ -281,6 +281,7 @@ func c14IterTranscript(w *World, keys []string, rev bool, prefix string, calls [
 			case "rewind":
 				it.Rewind()
 				m.idx, m.rewond = 0, true
+			case "fresh":
 			case "next":
 				it.Next()
 				if m.valid() {
